@@ -368,6 +368,22 @@ def rule_lazy(model, rep):
               "when the first load raises, the pending options are put back (and the exception re-raised), so the context is still the unloaded lazy context",
               witness="LazyCryptContext(['sha256_crypt'], bogus_option=1): the first access raises KeyError; every later call raises AttributeError / "
                       "TypeError: 'NoneType' object is not callable -- onload is never retried")
+    # "intact" includes the scheme list: a one-shot iterator (passlib.apps.ldap_context passes itertools.chain(list, generator)) that the failed
+    # attempt consumed is empty -- or half empty -- on the retry, unless it was turned into a list in the pending options first
+    unit = model.unit(CTX)
+    mats = [a for a in walk_no_nested(fn) if isinstance(a, ast.Assign) and isinstance(a.targets[0], ast.Subscript) and ast.unparse(a.targets[0].slice) == "'schemes'"
+            and isinstance(a.value, ast.Call) and ast.unparse(a.value.func) in ("list", "tuple") and unit.enclosing(a, ast.Try) is None]
+    one_shot = []
+    for un2, u2 in model.units.items():
+        if not un2.startswith("passlib."):
+            continue
+        for c in ast.walk(u2.tree):
+            if isinstance(c, ast.Call) and ast.unparse(c.func).split(".")[-1] == "LazyCryptContext" and c.args and not isinstance(c.args[0], (ast.List, ast.Tuple, ast.Name, ast.Constant)):
+                one_shot.append(f"{un2}: LazyCryptContext({ast.unparse(c.args[0])[:40]}, ...)")
+    rep.check(bool(mats) or not one_shot, R, f"{CTX}:LazyCryptContext._lazy_init schemes", "; ".join(one_shot) + ("  # restored as the same, consumed iterator" if one_shot and not mats else ""),
+              "a scheme source that can be iterated only once is stored as a list before the first attempt, so a retry sees all of it",
+              witness="make the first use of passlib.apps.ldap_context raise (a scheme whose module fails to import), repair the cause, use it again: it loads without its first three schemes, "
+                      "hashes with ldap_salted_md5 and no longer identifies {SSHA} / {SSHA256} / {SSHA512} hashes")
     pops = [c for c in walk_no_nested(fn) if isinstance(c, ast.Call) and ast.unparse(c.func).endswith(".pop") and c.args and ast.unparse(c.args[0]) == "'onload'"]
     if pops:
         recv = ast.unparse(pops[0].func.value)
